@@ -51,6 +51,7 @@ def expand_ref(text, env, root):
 
 def run(ctx):
     ctx.proofs('Props/C18.v')
+    ctx.table_proofs('C18Tables.v')
     build.extract_and_driver()
     h = build.harness()
     quick = ctx.tier == 'quick'
